@@ -720,6 +720,17 @@ def chain_and_seams(ctx):
 
 
 def run(ctx):
+    # an input whose last statement cannot be evaluated (deeper than the stack) has applied its earlier statements at
+    # most once (where the stack gives out - in the parser, before anything ran, or in the evaluator - is not C07's business)
+    _ones = " + 1" * 1200
+    _one_of = lambda *vs: (lambda o: o.get("status") == 0 and o.get("value") in vs)
+    _its = [(["w = [8, 16]", "w = w / 2; w" + _ones], (lambda o: (o.get("status") == 1 and not o.get("escaped")) or o.get("value") == "V:[I:1204;I:1208]"),
+             "an interval halved once, then a sum too long for the stack"),
+            (["w = [8, 16]", "w = w / 2; w" + _ones, "w"], _one_of("V:[I:4;I:8]", "V:[I:8;I:16]"), "an interval halved at most once by an input whose last statement is refused"),
+            (["w = [1, 2]", "w = w + 1; w" + " * 1" * 1500, "w"], _one_of("V:[I:2;I:3]", "V:[I:1;I:2]"), "an interval shifted at most once by an input whose last statement is refused"),
+            (["w = [1, 3]", "w = w * 3; w" + _ones, "w = w * 3; w" + _ones, "w"], _one_of("V:[I:9;I:27]", "V:[I:3;I:9]", "V:[I:1;I:3]"), "an interval tripled at most twice by two such inputs"),
+            (["w = [8, 16]", "w = w / 2; w + 1", "w"], "V:[I:4;I:8]", "an interval halved once by an ordinary input")]
+    C.expect_sessions(ctx["report"], ctx["rundir"], "C07", _its, kind="refused-tail")
     C.config_matrix(ctx["report"], ctx["rundir"], "C07", ["[1,2] * 2", "1 ± 0.1", "[-1,1] ^ 2", "sqrt([4,9])", "[1,2] < 3", "2 in [1,3]", "[2,2] == 2", "[2,2] != 2", "abs([-1.5e-200, 2.5e-200])", "[0.1+0.2, 1] + 0", "1 <= [1,2]"])
     chain_and_seams(ctx)
     rep, tier, seed = ctx["report"], ctx["tier"], ctx["seed"]
